@@ -96,8 +96,12 @@ def repo_bin(name, release=False):
     return os.path.join(REPO_TARGET, "release" if release else "debug", name)
 
 
+_wd_counter = [0]
+
+
 def workdir(tag):
-    d = os.path.join(WORK, "%s-%d" % (tag, os.getpid()))
+    _wd_counter[0] += 1
+    d = os.path.join(WORK, "%s-%d-%d" % (tag, os.getpid(), _wd_counter[0]))
     shutil.rmtree(d, ignore_errors=True)
     os.makedirs(d, exist_ok=True)
     return d
